@@ -3,6 +3,8 @@ Totality of the model builder: no stage records a trap, for every byte string an
 option combination whose (forced or automatic) mode can represent the input.
 -/
 import FastQr.Proofs.BuildSound
+import FastQr.Proofs.StructSize
+import FastQr.Proofs.CandidateLight
 import FastQr.Proofs.StructureSound
 import FastQr.Proofs.ScoreBounds
 import FastQr.Proofs.EncodeSound
@@ -10,28 +12,6 @@ import FastQr.Props.C09
 
 namespace FastQr.Proofs.Total
 open FastQr Model Spec Finite Proofs
-
-/-! ### `structure` returns a 5430-byte buffer -/
-
-theorem foldlM_size {α : Type} (f : Array Nat → α → Chk (Array Nat)) (xs : List α) (b : Array Nat)
-    (h : ∀ b x, (f b x).val.size = b.size) : (xs.foldlM f b).val.size = b.size := by
-  induction xs generalizing b with
-  | nil => rfl
-  | cons x xs ih => simp only [List.foldlM_cons, Chk.val_bind]; rw [ih, h]
-
-theorem ecBlock_size (data : Array Nat) (gen : List Nat) (startErr total : Nat) (out : Array Nat) (off sz col : Nat) :
-    (ecBlock data gen startErr total out off sz col).val.size = out.size := by
-  simp only [ecBlock, Chk.val_bind]
-  apply foldlM_size
-  intro b x
-  split <;> simp [pure, Chk.pure']
-
-theorem structure_size (data : Array Nat) (l : ECL) (v : Nat) : (structureBuf data l v).val.size = 5430 := by
-  simp only [structureBuf, Chk.val_bind]
-  rw [foldlM_size _ _ _ (by intro b x; split <;> simp [pure, Chk.pure']),
-    foldlM_size _ _ _ (fun b x => ecBlock_size _ _ _ _ _ _ _ _),
-    foldlM_size _ _ _ (fun b x => ecBlock_size _ _ _ _ _ _ _ _)]
-  simp
 
 /-! ### data placement bit count -/
 
@@ -76,51 +56,6 @@ theorem placeData_count {v : Nat} (hv : v < 40) (bytes : Array Nat) :
   simpa [modelScan, QR.type] using hlen
 
 /-! ### `place_on_matrix` -/
-
-theorem side_bounds {v : Nat} (hv : v < 40) : 21 ≤ Regions.side v ∧ Regions.side v ≤ 177 := by
-  simp only [Regions.side]; omega
-
-/-- every mask candidate still has the light module (1, 1) of the top-left finder pattern -/
-theorem candidate_light {v m : Nat} (hv : v < 40) (hm : m < 8) (bytes : Array Nat) :
-    ∃ b ∈ (applyMask m (placeData (template v) bytes).1).cells.toList, mval b = false := by
-  obtain ⟨hpn, hpwf, hpp⟩ := placeData_template hv bytes
-  have hs := side_bounds hv
-  have h1 : 1 < Regions.side v := by omega
-  have hstd : Regions.stdValue v 1 1 = some false := by
-    have : ∀ v, v < 40 → Regions.stdValue v 1 1 = some false := by decide +kernel
-    exact this v hv
-  have hnd : Regions.region v 1 1 ≠ .data := by
-    intro h; simp only [Regions.stdValue, Regions.stdValueIn, Regions.region] at hstd h; rw [h] at hstd; simp at hstd
-  obtain ⟨hpt, hpv⟩ := hpp 1 1 h1 h1
-  have hmask := applyMask_get hv hm _ hpwf (by rw [hpn]; rfl) (r := 1) (c := 1) (by rw [hpn]; exact h1) (by rw [hpn]; exact h1)
-  have htt := template_type hv h1 h1
-  have hnotdata : ¬ mtype ((placeData (template v) bytes).1.get 1 1) = tData := by
-    rw [hpv hnd]
-    simp only [QR.type] at htt
-    rw [htt]
-    intro h
-    apply hnd
-    cases hreg : Regions.region v 1 1 <;> simp_all [Region.code, tData]
-  have hval : mval ((applyMask m (placeData (template v) bytes).1).get 1 1) = false := by
-    rw [hmask, if_neg (fun h => hnotdata h.1), hpv hnd]
-    have hnv : Regions.region v 1 1 ≠ .version := by
-      intro h; simp only [Regions.stdValue, Regions.stdValueIn, Regions.region] at hstd h; rw [h] at hstd; simp at hstd
-    rw [template_cell hv h1 h1 hnv]
-    simp only [expectedCell, expectedCellIn, mval_mk]
-    simp only [Regions.stdValue] at hstd
-    simp [hstd]
-  have hwf : WF (applyMask m (placeData (template v) bytes).1) := applyMask_WF m _ hpwf
-  have hnn : (applyMask m (placeData (template v) bytes).1).n = Regions.side v := by rw [applyMask_n, hpn]
-  have hidx : 1 * (applyMask m (placeData (template v) bytes).1).n + 1 < (applyMask m (placeData (template v) bytes).1).cells.size := by
-    rw [hwf, hnn]
-    have : 1 * Regions.side v + 1 < Regions.side v * Regions.side v := by
-      have := Nat.mul_le_mul_right (Regions.side v) (by omega : 2 ≤ Regions.side v)
-      omega
-    exact this
-  refine ⟨(applyMask m (placeData (template v) bytes).1).cells[1 * (applyMask m (placeData (template v) bytes).1).n + 1], ?_, ?_⟩
-  · exact Array.mem_toList_iff.mpr (Array.getElem_mem hidx)
-  · simp only [QR.get, Array.getD_eq_getD_getElem?, Array.getElem?_eq_getElem hidx, Option.getD_some] at hval
-    exact hval
 
 theorem placeOnMatrix_traps {v : Nat} (hv : v < 40) (l : ECL) (bytes : Array Nat) (hsz : bytes.size = 5430)
     (forced : Option Nat) (hf : ∀ m, forced = some m → m < 8) : (placeOnMatrix bytes l v forced).traps = [] := by
